@@ -161,7 +161,7 @@ impl Prop for C04 {
 		vec![
 			"the clause 'for every byte string' is a statement over inputs: it is sampled, through fault-derived inputs; what is decided is the environment-facing part (memory, work, stack, limits, both input paths)".into(),
 			"max_alloc_size values up to 1 MiB are used (with the 512 MiB default a 400 MB field is, by configuration, allowed to allocate)".into(),
-			"memory bounds are checked with allocation-free targets (Hash / IgnoredAny) so that every allocation seen is the crate's own: reader path peak <= 2*max_alloc_size + 4 KiB (Vec growth may double), slice path 0 allocations on Ok and <= 64 KiB on Err".into(),
+			"memory bounds are checked with allocation-free targets (Hash / IgnoredAny) so that every allocation seen is the crate's own: reader path peak <= 2*max_alloc_size + 4*len + 256 KiB (Vec growth may double; constants generous on purpose: hostile lengths start at 2^20), slice path 0 allocations on Ok and <= 64 KiB on Err".into(),
 			"depth oracle, two-sided: 'nesting' is taken in the everyday sense — records, arrays and maps inside one another; a union is a choice, not a level. Err required when that nesting exceeds allowed_depth (the crate charges at least that much: it also charges unions); Ok required only when 2*(nesting incl. unions)+2 <= allowed_depth".into(),
 			"the sequence-size oracle is not applied to IgnoredAny / masked targets, which may skip size-prefixed blocks without counting their elements".into(),
 		]
@@ -368,7 +368,9 @@ impl Prop for C04 {
 				}
 				Path::Reader(kind) => {
 					let bufreader = if let ReaderKind::BufReader { cap, .. } = kind { *cap } else { 0 };
-					let bound = 2 * lim.max_alloc_size as i64 + 4096 + bufreader as i64;
+					// generous constants on purpose: the monitor is after allocations driven by numbers written in the
+					// input (hostile lengths start at 2^20 here), not after a reader that pre-allocates a few KiB
+					let bound = 2 * lim.max_alloc_size as i64 + 4 * len as i64 + (256 << 10) + bufreader as i64;
 					if st.peak_live > bound {
 						out.fail(
 							"C04:reader-path-memory-exceeds-configured-cap",
